@@ -35,6 +35,14 @@ def images(r, quick):
     for variant, geom in (('dfs', (40, 10)), ('wdfs', (80, 10)), ('opus', None), ('dfs', (40, 18)), ('dfs', (80, 18))):
         d = discs.gen_disc(r, variant=variant, geom=geom, max_files=6)
         out.append(('a' + d.extension(), d.encode(discs.filler(r)), d))
+    # an image that itself begins with the gzip magic number 1F 8B (a title made of VDU codes), uncompressed and compressed
+    d = discs.gen_disc(r, variant='dfs', geom=(40, 10), max_files=3)
+    d.cats[0].title = b'\x1f\x8b\x08MAGIC'
+    out.append(('m.ssd', d.encode(lambda n: bytes(n)), d))
+    # ".gz" elsewhere in the path, and a name whose hint matters (720 catalogued sectors in a .ssd: FM 80x10 with the hint, MFM 40x18 without)
+    d = discs.gen_disc(r, variant='dfs', geom=(40, 18), max_files=3, total=720)
+    out.append(('back.gz.d/game.ssd', d.encode(lambda n: bytes(n)), None))
+    out.append(('n.gz.ssd', d.encode(lambda n: bytes(n)), None))
     # short images: a catalogue and little else; odd lengths
     d = discs.gen_disc(r, variant='dfs', geom=(40, 10), max_files=2, total=r.choice([5, 9, 33]))
     img = d.encode(lambda n: bytes(n))
@@ -153,7 +161,7 @@ def run(ctx):
             continue
         if m['role'] == 'gz':
             ri = m['ref'].impl
-            ctx.count('ext' + m['name'][m['name'].index('.'):])
+            ctx.count('ext.' + m['name'].split('.')[-1])
             ctx.count('level.%d' % m['level'])
             ctx.count('members.%d' % m.get('members', 1))
             ctx.case((m['name'], m['level'], tuple(c.real_argv[-2:]), m['size']), True,
